@@ -2,22 +2,35 @@
    Statements only; proofs in C30/Proofs.v, C30/Proofs2.v.  About the models of
    Parser._parse_constant (C09/Gen.v regenerated from cparser.py + C09/Model.v), of
    _process_macros/_add_integer_constant/_r_int_literal (C30/Model.v, C09/Model.v) and of _preprocess
-   (C31/Model.v).  Everything past these (pycparser, the rest of cparser.py, parse_c_type.c) is
-   covered by fuzzing only (tools/props/c30.py): label partial. *)
+   (C31/Model.v).  parse_c_type.c is covered by the theorems imported from C07 (below); everything else past these
+   (pycparser, the rest of cparser.py, ffi_obj.c/_ffi_type, realize_c_type.c) is covered by fuzzing only
+   (tools/props/c30.py): label partial. *)
 From Coq Require Import ZArith NArith String Ascii List Bool.
 Import ListNotations.
 From Cffi Require Import C09.Prim C09.Gen C09.Model C30.Model C30.Proofs C30.Proofs2.
 From Cffi Require C31.Model C31.Proofs2.
+From Cffi Require C07.Model C07.NoFault C07.Props.
 Open Scope Z_scope.
 Open Scope string_scope.
+
+(* TIES (differential runs of tools/props/c30.py on every ./check C30; a disagreement is reported under these names):
+     [tie-eval]   "C09.Model.py_eval (exception class) vs cparser._parse_constant"   Gen.v is regenerated from the source
+                  (c09_regen.py); the hand-written literal scanner lit_value is tied by this run
+     [tie-macro]  "C30.Model.r_int_literal/process_macro vs cparser._r_int_literal/_process_macros"
+                  the regular expression _r_int_literal against Python's re, _add_integer_constant against int(s, 0)
+     [tie-preprocess] "C31.Model.preprocess vs cparser._preprocess" (run by ./check C31): _r_line_directive,
+                  _r_define, _r_comment, _r_other_whitespace against re
+     [tie-C07]    ./check C07: C07.Model against the unmodified parse_c_type.c (ASan harness) *)
 
 (* the full statement, now true of the regenerated text (fixes d0898b6 shift-count guard, 77a8ba4 hex-float
    guard, 501df80 division by zero): for every expression tree (any depth, any table of known constants)
    _parse_constant returns a value or raises CDefError or FFIError -- nothing else *)
+(* [tie-eval] *)
 Theorem C30_evaluator_closed : forall env e x, wf e -> py_eval env e = Err x -> cffi_error x.
 Proof. exact evaluator_closed. Qed.
 Print Assumptions C30_evaluator_closed.
 
+(* [tie-eval] *)
 Corollary C30_no_python_exception : forall env e, wf e ->
   py_eval env e <> Err ZeroDivisionError /\ py_eval env e <> Err ValueError /\
   py_eval env e <> Err IndexError /\ py_eval env e <> Err KeyError /\ py_eval env e <> Err MemoryError.
@@ -27,6 +40,7 @@ Qed.
 Print Assumptions C30_no_python_exception.
 
 (* the guard: every shift count outside 0..1024 is refused with CDefError before Python shifts *)
+(* [tie-eval] *)
 Theorem C30_shift_guard : forall a b, ~ (0 <= b <= 1024) ->
   binop "<<" a b = Some (Err CDefError) /\ binop ">>" a b = Some (Err CDefError).
 Proof. exact shift_guard. Qed.
@@ -44,16 +58,19 @@ Example C30_former_witnesses :
 Proof. vm_compute. repeat split; reflexivity. Qed.
 
 (* '#define NAME value': whatever _r_int_literal accepts, int(..., 0) converts: no ValueError (all strings) *)
+(* [tie-macro] *)
 Theorem C30_macros_closed : forall s, r_int_literal s = true -> exists v, add_integer_constant s = Ok v.
 Proof. exact macros_closed. Qed.
 Print Assumptions C30_macros_closed.
 
+(* [tie-macro] *)
 Theorem C30_negated_literal_closed : forall s, r_int_literal s = true ->
   match s with c :: _ => N.eqb c 45 | [] => false end = false ->
   exists v, add_integer_constant (45%N :: s) = Ok v.
 Proof. exact negated_literal_closed. Qed.
 Print Assumptions C30_negated_literal_closed.
 
+(* [tie-macro] *)
 Theorem C30_process_macro_closed : forall value x, process_macro value = Err x -> x = CDefError.
 Proof. exact process_macro_closed. Qed.
 Print Assumptions C30_process_macro_closed.
@@ -62,6 +79,7 @@ Print Assumptions C30_process_macro_closed.
    classes that occur in _put_back_line_directives: replace() by itself raises ValueError (a directive-like
    line that is not a '#line@N' placeholder; int() failing on N, with Python's int() grammar modelled) or
    IndexError (N out of range, with Python's negative indices modelled) ... *)
+(* [tie-preprocess] *)
 Theorem C30_replace_raw_errors : forall l st x, C31.Model.replace_raw l st = C31.Model.Err x ->
   x = C31.Model.ValueError \/ x = C31.Model.IndexError.
 Proof. exact C31.Proofs2.replace_raw_errors. Qed.
@@ -69,6 +87,7 @@ Print Assumptions C30_replace_raw_errors.
 
 (* ... and since fix 5595182 catches exactly these two classes, every failure of the whole _preprocess is a
    CDefError (all texts).  Not vacuous: with `except ValueError` only, "/*\n*/#line@7" would give IndexError *)
+(* [tie-preprocess] *)
 Theorem C30_preprocess_closed : forall s x, C31.Model.preprocess s = C31.Model.Err x -> x = C31.Model.CDefError.
 Proof. exact C31.Proofs2.preprocess_errors. Qed.
 Print Assumptions C30_preprocess_closed.
@@ -86,6 +105,58 @@ Example C30_preprocess_former_witnesses :
   C31.Model.preprocess [47;42;42;47;35;32;53]%N = C31.Model.Err C31.Model.CDefError /\
   C31.Model.preprocess [47;42;10;42;47;35;108;105;110;101;64;55]%N = C31.Model.Err C31.Model.CDefError.
 Proof. split; vm_compute; reflexivity. Qed.
+
+(* ==== second sentence of C30: "typeof() on a compiled FFI returns a ctype or raises ffi.error ... and never
+   crashes or reads outside the string" -- the part decided by parse_c_type.c ====
+   Imported (read-only) from C07: C07.Model is a character/token-level model of parse_c_type.c (next_token,
+   parse_complete, parse_sequel, write_ds, the opcode buffer with every load/store checked); it is tied to the
+   UNMODIFIED parse_c_type.c by ./check C07 (an ASan harness with exact-size output buffers) -- C30's own run
+   exercises the same file through the real _cffi_backend with ASan/UBSan and PYTHONMALLOC=debug
+   (tools/props/c30.py, streams ctype and complexity-limit).
+   What the C07 model covers: parse_c_type.c only.  NOT in it: _ffi_type() in ffi_obj.c (allocation of the
+   FFI_COMPLEXITY_OUTPUT-slot buffer, the error message built by _ffi_bad_type), realize_c_type.c (building the
+   ctype from the opcodes: TypeError/ValueError/OverflowError/RuntimeError paths) and the conversion of the
+   Python str to a NUL-terminated char*.  Those remain fuzz-only.  The model's outcome type also has
+   `Err E_out_of_fuel`, an artefact of the model's fuel (C07 sets fuel = 6*length+24); it is not a C behaviour. *)
+
+(* "never ... reads outside" for the opcode buffer: for EVERY string, declaration context and buffer size the
+   parser performs no load or store outside the part of the output buffer it has already written *)
+(* [tie-C07] *)
+Theorem C30_type_parser_no_buffer_fault : forall (output_size : nat) (cx : C07.Model.ctx) (input : C07.Model.str),
+  C07.Model.parse_c_type output_size cx input <> C07.Model.Fault.
+Proof. exact C07.Props.C07_no_fault. Qed.
+Print Assumptions C30_type_parser_no_buffer_fault.
+
+(* "returns a ctype or raises ffi.error": the outcome is an error (ffi.error with message and position) or a result
+   index that lies inside the opcodes written -- what realize_c_type then reads is initialised memory *)
+(* [tie-C07] *)
+Theorem C30_type_parser_outcome : forall (output_size : nat) (cx : C07.Model.ctx) (input : C07.Model.str),
+  match C07.Model.parse_c_type output_size cx input with
+  | C07.Model.Ok (out, r) => (0 <= r < Z.of_nat (List.length out))%Z
+  | C07.Model.Err _ _ => True
+  | C07.Model.Fault => False
+  end.
+Proof.
+  intros osz cx input. destruct (C07.Model.parse_c_type osz cx input) as [[out r]|e p|] eqn:E.
+  - eapply C07.Props.C07_result_index_in_range; eauto.
+  - exact I.
+  - exact (C07.Props.C07_no_fault osz cx input E).
+Qed.
+Print Assumptions C30_type_parser_outcome.
+
+(* "never reads outside the string": the tokenizer and the two look-ahead helpers do not depend on anything stored
+   after the terminating NUL, and every token lies before it *)
+(* [tie-C07] *)
+Theorem C30_type_parser_stays_in_string : forall s junk, C07.NoFault.nulfree s = true ->
+  C07.Model.lex_from (s ++ 0%N :: junk)%list = C07.Model.lex_from s /\
+  (forall k n kd, C07.Model.lex_from s = (k, n, kd) -> (k + n <= List.length s)%nat) /\
+  C07.Model.first_nonspace (s ++ 0%N :: junk)%list = C07.Model.first_nonspace s /\
+  (forall d acc, C07.Model.ncommas (s ++ 0%N :: junk)%list d acc = C07.Model.ncommas s d acc).
+Proof.
+  intros s junk H. destruct (C07.Props.C07_next_token_stops_at_terminator s junk H) as [A B].
+  destruct (C07.Props.C07_lookahead_stops_at_terminator s junk) as [C D]. auto.
+Qed.
+Print Assumptions C30_type_parser_stays_in_string.
 
 (* ---- non-vacuity ---- *)
 Example C30_wf_example : wf (Binary "<<" (Unary "-" (lit "0x1p3")) (Binary "/" (Id [120%N]) (lit "0"))).
